@@ -997,6 +997,73 @@ FLIP_GOOD = "bc1q82qwhphpzr8upm6xumv4ehyxt8d9dqpmjga6lu"
 FLIP_BAD = "bc1t82qwhphpzr8upm6xumv4eh2xt8d9dqpmegm6lu"
 
 
+def ref_parse_bech32(s):
+    """what parse_bech32 must return, from the BIP text: (hrp, version, program bytes, 1|2) or None"""
+    if any(ord(c) < 33 or ord(c) > 126 for c in s) or (s != s.lower() and s != s.upper()):
+        return None
+    a = s.lower()
+    if len(a) > 90 or "1" not in a:
+        return None
+    h, _, d = a.rpartition("1")
+    if len(h) < 1 or len(d) < 7 or any(c not in B32 for c in d):
+        return None
+    vals = [B32.index(c) for c in d]
+    pm = ref_polymod(ref_expand(h) + vals)
+    if pm not in (1, M_CONST):
+        return None
+    return (h, vals[0], ref_from5(vals[1:-6]) or b"", 1 if pm == 1 else 2)
+
+
+def chk_spelling_sequence(variants):
+    """module-level state: DIFFERENT string objects that are spellings of one another (lower, upper, mixed case, one
+    character changed) parsed one after the other: each answer must be what the BIP text says for that very string,
+    whatever was parsed before"""
+    nets = dict(_networks())
+    for i, v in enumerate(variants):
+        want = ref_parse_bech32(v)
+        try:
+            got = _ps.parse_bech32(v)
+        except Exception as e:
+            return {"kind": "parse_bech32-raises", "exc": type(e).__name__, "step": i}
+        if got is not None:
+            got = (got[0], got[1], bytes(got[2]), got[3])
+        if got != want:
+            return {"kind": "spelling-sequence-parse_bech32", "step": i, "string": cps(v), "got": _norm(got), "want": _norm(want)}
+        for sym in ("btc", "xtn"):
+            net = nets.get(sym)
+            if net is None:
+                continue
+            hrp = "bc" if sym == "btc" else "tb"
+            r = net.parse.address(v)
+            w = ref_segwit_decode(hrp, v)
+            ok_want = w is not None and ((w[0] == 0 and len(w[1]) in (20, 32)) or (w[0] == 1 and len(w[1]) == 32))
+            if (r is not None) and w is None:
+                return {"kind": "spelling-sequence-address-accepted", "net": sym, "step": i, "string": cps(v)}
+            if r is None and ok_want:
+                return {"kind": "spelling-sequence-address-refused", "net": sym, "step": i, "string": cps(v)}
+    return None
+
+
+def _spelling_sequences(rng, tier):
+    out = []
+    for hrp, ver, n in (("bc", 0, 20), ("bc", 1, 32), ("tb", 0, 32), ("tb", 1, 32), ("ltc", 0, 20), ("a1b", 5, 7)):
+        for _ in range(3 if tier == "quick" else 60):
+            s = ref_segwit_encode(hrp, ver, bytes(rng.getrandbits(8) for _ in range(n)))
+            letters = [j for j, c in enumerate(s) if c.isalpha()]
+            j = rng.choice(letters)
+            mixed = s[:j] + s[j].upper() + s[j + 1:]
+            mixed2 = s.upper()[:j] + s[j] + s.upper()[j + 1:]
+            k = rng.randrange(len(hrp) + 1, len(s))
+            other = s[:k] + rng.choice([c for c in B32 if c != s[k]]) + s[k + 1:]
+            forms = [s, s.upper(), mixed, mixed2, other, other.upper(), s.replace("k", "\u212a"), s.upper().replace("K", "\u212a")]
+            out.append([s, mixed, s.upper(), mixed2, other, s])
+            out.append([mixed, s, mixed])
+            out.append([other, s, other.upper(), s.upper()])
+            out.append([s.upper(), mixed2, s, mixed])
+            out.append([rng.choice(forms) for _ in range(8)])
+    return out
+
+
 class _IntSub(int):
     pass
 
@@ -1106,6 +1173,8 @@ def prop_cases(rng, tier):
         hrp, ver, prog = tl[i % len(tl)]
         yield _pc("presentation", {"b": b.hex(), "hrp": hrp, "ver": ver, "prog": prog.hex()},
                   (lambda b=b, hrp=hrp, ver=ver, prog=prog: chk_presentation(b, hrp, ver, prog)))
+    for seq in _spelling_sequences(rng, tier):
+        yield _pc("spelling_sequence", {"variants": [cps(v) for v in seq]}, (lambda seq=seq: chk_spelling_sequence(seq)))
     for s, ops in _histories(rng, tier, False):
         yield _pc("history", {"s": cps(s), "ops": ops}, (lambda s=s, ops=ops: chk_history(s, ops)))
 
@@ -1147,6 +1216,8 @@ def replay_input(check, inp):
         return chk_corruption(inp["hrp"], inp["s"], inp["t"])
     if check == "presentation":
         return chk_presentation(bytes.fromhex(inp["b"]), inp["hrp"], inp["ver"], bytes.fromhex(inp["prog"]))
+    if check == "spelling_sequence":
+        return chk_spelling_sequence([_str(v) for v in inp["variants"]])
     if check == "history":
         return chk_history(_str(inp["s"]), list(inp["ops"]))
     return {"kind": "unknown-check"}
@@ -1216,6 +1287,8 @@ def search(rng, tier, disagreements, known_ids):
                             cands.append(_pc("segwit_string", {"hrp": h2, "s": cps(s2)}, (lambda h2=h2, s2=s2: chk_segwit_string(h2, s2))))
             elif fn in ("bech32_decode", "parse_bech32", "parse_bech32_or_32m"):
                 s = toks_str(toks[1])
+                for seq in ([s.lower(), s], [s.upper(), s], [s, s.lower(), s.upper()], [s.lower(), s.upper(), s, s.lower()]):
+                    cands.append(_pc("spelling_sequence", {"variants": [cps(v) for v in seq]}, (lambda seq=seq: chk_spelling_sequence(seq))))
                 hrp = s.lower().rpartition("1")[0]
                 cands.append(_pc("segwit_string", {"hrp": hrp, "s": cps(s)}, (lambda hrp=hrp, s=s: chk_segwit_string(hrp, s))))
             elif fn == "encode":
